@@ -484,6 +484,15 @@ func (e *SpecEnv) evalCall(x *ast.CallExpr) Term {
 		name := arg(0).(*ast.Ident).Name
 		ref := e.eval(arg(1))
 		return vc.ghostLoad(e.st, name, ref.S, e.pkg)
+	case "tokval":
+		ch := e.eval(arg(0))
+		et := vc.ts.apply(under(ch.T).(*types.Chan).Elem())
+		_, val, _, _ := vc.tokenHeaps(e.st, et)
+		return vc.mk(sel(val.S, ch.S), et)
+	case "tokheld":
+		ch := e.eval(arg(0))
+		h := vc.heapGet(e.st, "G$tokheld", "(Array Int Int)", nil)
+		return boolTerm(eq(sel(h.S, ch.S), "1"))
 	case "held":
 		hn, ref := e.lockTarget(arg(0))
 		h := vc.heapGet(e.st, hn, "(Array Int Int)", nil)
@@ -821,7 +830,12 @@ func (e *SpecEnv) expandPure(fn *types.Func, recv *Term, args []Term, at ast.Exp
 		if i >= len(args) {
 			vc.specFail(at, "%s: too few arguments", fn.Name())
 		}
-		vars[names[idx+i]] = vc.coerce(args[i], vc.ts.apply(sig.Params().At(i).Type()))
+		pt := vc.ts.apply(sig.Params().At(i).Type())
+		if containsTypeParam(pt) {
+			vars[names[idx+i]] = args[i] // generic parameter: keep the argument's own type
+		} else {
+			vars[names[idx+i]] = vc.coerce(args[i], pt)
+		}
 	}
 	resName := "result"
 	if sig.Results().Len() == 1 && sig.Results().At(0).Name() != "" {
@@ -833,7 +847,7 @@ func (e *SpecEnv) expandPure(fn *types.Func, recv *Term, args []Term, at ast.Exp
 			if id, ok := be.X.(*ast.Ident); ok && (id.Name == "result" || id.Name == resName) {
 				n := &SpecEnv{vc: vc, st: e.st, old: e.old, vars: vars, pkg: fpkg, depth: e.depth + 1, allocOld: e.allocOld}
 				r := n.eval(be.Y)
-				if sig.Results().Len() == 1 {
+				if sig.Results().Len() == 1 && !containsTypeParam(vc.ts.apply(sig.Results().At(0).Type())) {
 					r = vc.coerce(r, vc.ts.apply(sig.Results().At(0).Type()))
 				}
 				return r
@@ -960,6 +974,11 @@ func (vc *VC) ghostHeap(name string, pkg *types.Package) (hname, hsort string, t
 	} else {
 		vs = vc.u.SortOf(t)
 	}
+	if d.ZeroInit && g == nil {
+		hn := "G$" + name
+		vc.declare(hn+"@0", "(Array Int "+vs+")")
+		vc.addBase(fmt.Sprintf("(forall ((r!z Int)) (! (=> (>= r!z alloc@0) (= (select %s@0 r!z) %s)) :pattern ((select %s@0 r!z))))", hn, vc.u.Zero(t).S, hn))
+	}
 	return "G$" + name, "(Array Int " + vs + ")", t, g
 }
 
@@ -970,4 +989,28 @@ func (vc *VC) ghostLoad(st *State, name, ref string, pkg *types.Package) Term {
 		return vc.ghostArrayTerm(sel(h.S, ref), g)
 	}
 	return vc.mk(sel(h.S, ref), t)
+}
+
+func containsTypeParam(t types.Type) bool {
+	switch tt := t.(type) {
+	case *types.TypeParam:
+		return true
+	case *types.Pointer:
+		return containsTypeParam(tt.Elem())
+	case *types.Slice:
+		return containsTypeParam(tt.Elem())
+	case *types.Array:
+		return containsTypeParam(tt.Elem())
+	case *types.Map:
+		return containsTypeParam(tt.Key()) || containsTypeParam(tt.Elem())
+	case *types.Chan:
+		return containsTypeParam(tt.Elem())
+	case *types.Named:
+		for i := 0; tt.TypeArgs() != nil && i < tt.TypeArgs().Len(); i++ {
+			if containsTypeParam(tt.TypeArgs().At(i)) {
+				return true
+			}
+		}
+	}
+	return false
 }
